@@ -113,6 +113,111 @@ fn query_event(ont: &Ontology, a: u32, b: u32) -> Value {
     }
 }
 
+/// A "fan" run: flat ontologies that realise arbitrary pairs of id groups as ancestor sets, so that the
+/// crate's sorted-group union / intersection are exercised at ontology level with group sizes around
+/// the small-vector capacity (30) and very unequal sizes, and with interleaved / touching id ranges:
+///   u has the direct parents A, v has the direct parents B, one p0 in B has the direct parents C.
+///   ancestors(v) = B + C (union of a parent group and a grandparent group), common(u, v) = A & (B + C).
+pub fn fan_run(rng: &mut Rng, variant: u64) -> Vec<Value> {
+    let mut ev: Vec<Value> = vec![];
+    let (na, nb, nc) = match variant % 6 {
+        0 => (2usize, 40usize, 3usize),
+        1 => (40, 2, 35),
+        2 => (33, 33, 33),
+        3 => (1, 64, 31),
+        4 => (31, 30, 2),
+        _ => (3, 50, 48),
+    };
+    // a pool of ids; A, B, C are drawn with overlaps and touching borders
+    let pool_n = na + nb + nc + 6;
+    let mut pool: BTreeSet<u32> = BTreeSet::new();
+    while pool.len() < pool_n {
+        pool.insert(rng.range(10, 5000) as u32);
+    }
+    let pool: Vec<u32> = pool.into_iter().collect();
+    let pick = |rng: &mut Rng, n: usize, style: u64| -> BTreeSet<u32> {
+        let mut s = BTreeSet::new();
+        match style % 3 {
+            0 => {
+                // a contiguous block of the pool
+                let start = rng.below((pool.len() - n) as u64 + 1) as usize;
+                for i in 0..n {
+                    s.insert(pool[start + i]);
+                }
+            }
+            1 => {
+                // every second id (interleaves with a contiguous block)
+                let mut i = rng.below(2) as usize;
+                while s.len() < n && i < pool.len() {
+                    s.insert(pool[i]);
+                    i += 2;
+                }
+                while s.len() < n {
+                    s.insert(*rng.pick(&pool));
+                }
+            }
+            _ => {
+                while s.len() < n {
+                    s.insert(*rng.pick(&pool));
+                }
+            }
+        }
+        s
+    };
+    let a = pick(rng, na, variant);
+    let b = pick(rng, nb, variant / 3 + 1);
+    let c = pick(rng, nc, variant / 9 + 2);
+    let p0 = *b.iter().next().unwrap();
+    let c: BTreeSet<u32> = c.into_iter().filter(|x| *x != p0).collect();
+    let (u, v) = (9_000_001u32, 9_000_002u32);
+    let mut order: Vec<u32> = pool.clone();
+    order.push(u);
+    order.push(v);
+    rng.shuffle(&mut order);
+    let mut b_ = Builder::new();
+    for id in &order {
+        b_.new_term(&format!("T{id}"), *id);
+        ev.push(json!({"e": "NewTerm", "id": id}));
+    }
+    let mut b_ = b_.terms_complete();
+    ev.push(json!({"e": "TermsComplete"}));
+    let mut edges: Vec<(u32, u32)> = vec![];
+    for x in &a {
+        edges.push((*x, u));
+    }
+    for x in &b {
+        edges.push((*x, v));
+    }
+    for x in &c {
+        edges.push((*x, p0));
+    }
+    rng.shuffle(&mut edges);
+    for (p, ch) in &edges {
+        let r = b_.add_parent(*p, *ch);
+        ev.push(json!({"e": "AddParent", "p": p, "c": ch, "ok": r.is_ok()}));
+    }
+    let b_ = b_.connect_all_terms();
+    ev.push(json!({"e": "ConnectAll"}));
+    let ont = match catch(|| b_.calculate_information_content().map(|x| x.build_minimal())) {
+        Ok(Ok(o)) => o,
+        _ => {
+            ev.push(json!({"e": "BuildFailed"}));
+            return ev;
+        }
+    };
+    match proj_json(&ont) {
+        Ok(p) => ev.push(json!({"e": "Built", "proj": p})),
+        Err(p) => {
+            ev.push(json!({"e": "ProjectionPanicked", "why": p}));
+            return ev;
+        }
+    }
+    for (x, y) in [(u, v), (v, u), (u, p0), (p0, v), (u, u)] {
+        ev.push(query_event(&ont, x, y));
+    }
+    ev
+}
+
 /// one random run; returns its events
 pub fn one_run(rng: &mut Rng, large: bool, layout: u64) -> Vec<Value> {
     let mut ev: Vec<Value> = vec![];
@@ -376,6 +481,11 @@ pub fn run(args: &Args) {
         }
         // the id layouts of the large runs cycle deterministically (first: root in the middle)
         let le = args.num("large-every", 0);
+        let fe = args.num("fan-every", 0);
+        if fe > 0 && r % fe == fe - 1 {
+            all.push((r, fan_run(&mut rng, r / fe)));
+            continue;
+        }
         all.push((r, one_run(&mut rng, le > 0 && r % le.max(1) == 0, if le > 0 { r / le.max(1) } else { 0 })));
     }
     // one trace file per chunk (validated by parallel TLC processes); each starts with a header
